@@ -1,8 +1,276 @@
 /-
-C17 — Post part (theorems). See reports/C17.md.
+C17 — "post part" (theorems): the `post` version 2.0 rebuild, maxp / head / hhea, VORG, vmtx pass-through.
+See reports/C17.md.
+
+Model: `FontVerif.SubsetPost` (klippa/src/post.rs after repairs 4f39551, d201e53, ffa8a1c; head.rs;
+glyf_loca.rs `subset_head`; hmtx.rs hhea tail; vorg.rs; lib.rs dispatch) and `Subset.subsetMaxp` (maxp.rs), tied to
+the real code by the `post2*` / `head` / `hhea` / `maxp2` / `vorg*` / `vmtx` correspondence groups of
+harness/src/bin/c17/postx.rs.  Readers: read-fonts `Post::read` / `Post::glyph_name` (`glyphName`),
+`VarLenArray::get` / `iter` (`pstrGet` / `pstrAll`), `Vorg::vertical_origin_y` (`vorgOriginY`), `hmtx::advance` /
+`side_bearing` (`Subset.hmtxAdvance` / `hmtxLsb`, shared by hmtx and vmtx).
 -/
-import FontVerif.Model.Base
+import FontVerif.Lemmas.SubsetPost
+import FontVerif.Lemmas.Layout
+set_option linter.unusedVariables false
 namespace FontVerif.C17Post
-open FontVerif
+open FontVerif FontVerif.Subset FontVerif.SubsetMeta FontVerif.SubsetPost
+
+/-! ## post -/
+
+/-- What `Plan::new` guarantees about the request a `post` version 2.0 table is rebuilt for (see
+`C17.glyph_map_monotone_bijection`: new ids pairwise distinct, old ids pairwise distinct, every new id below
+`num_output_glyphs`; `plan.glyphset.last()` bounds every kept glyph and is `None` only for an empty glyph set),
+plus: GLYPH_NAMES requested, the table says version 2.0, its bytes are bytes, fewer than 65536 output glyphs. -/
+structure PostReq (inp : PostIn) : Prop where
+  flag : hasFlag inp.flags F_GLYPH_NAMES = true
+  ver : u32At inp.t 0 = 0x00020000
+  bytes : ∀ b ∈ inp.t, b < 256
+  plan : PlanOk inp.n2o inp.nout
+  nout : inp.nout < 65536
+  maxSome : ∀ m, inp.maxOld = some m → ∀ no ∈ inp.n2o, no.2 ≤ m
+  maxNone : inp.maxOld = none → inp.n2o = []
+
+/-- the shape of a successful version 2.0 rebuild -/
+theorem subsetPost_v2_ok (inp : PostIn) (out : Bytes) (hr : PostReq inp) (h : subsetPost inp = .ok out) :
+    postReadable inp.t = true ∧ out = v2bytes (inp.t.take 32) inp.nout (v2tail inp) := by
+  unfold subsetPost at h
+  by_cases hrd : postReadable inp.t = true
+  · simp only [hrd, Bool.not_true, Bool.false_eq_true, if_false, hr.flag, hr.ver, and_self, if_true] at h
+    split at h
+    · cases h
+    split at h
+    · cases h
+    split at h
+    · cases h
+    · simp only [Except.ok.injEq] at h
+      exact ⟨hrd, h.symm⟩
+  · simp [hrd] at h
+
+/-- the source table of a successful rebuild has its 34 header bytes -/
+theorem readable_v2_length (t : Bytes) (hb : ∀ b ∈ t, b < 256) (hv : u32At t 0 = 0x00020000)
+    (hr : postReadable t = true) : 34 + 2 * postNumGlyphs t ≤ t.length := by
+  have := (version_bytes t hb hv).1
+  unfold postReadable hasV2Fields at hr
+  simp only [this, beq_self_eq_true, if_true, decide_eq_true_eq] at hr
+  exact hr
+
+/-- what the reader sees in the rebuilt table -/
+theorem out_reader (inp : PostIn) (out : Bytes) (hr : PostReq inp) (h : subsetPost inp = .ok out) :
+    postReadable out = true ∧ u32At out 0 = 0x00020000 ∧ postNumGlyphs out = inp.nout ∧
+    (∀ i, i < inp.nout → u16At out (34 + 2 * i) = (v2tail inp).arr.getD i 0 % 65536) ∧
+    stringData out = (v2tail inp).strs.flatMap pstrEnc := by
+  obtain ⟨hrd, hout⟩ := subsetPost_v2_ok inp out hr h
+  have hlen := readable_v2_length inp.t hr.bytes hr.ver hrd
+  have hh : (inp.t.take 32).length = 32 := by simp; omega
+  obtain ⟨l1, l2, l3, l4, l5⟩ := v2bytes_layout (inp.t.take 32) inp.nout (v2tail inp) hh hr.nout (v2tail_arr_length inp)
+  obtain ⟨v0, v2⟩ := version_bytes inp.t hr.bytes hr.ver
+  have h0 : u16At out 0 = 2 := by rw [hout, l1 0 (by omega), u16At_take _ _ _ (by omega)]; exact v0
+  have h2 : u16At out 2 = 0 := by rw [hout, l1 2 (by omega), u16At_take _ _ _ (by omega)]; exact v2
+  have hng : postNumGlyphs out = inp.nout := by unfold postNumGlyphs; rw [hout]; exact l2
+  refine ⟨?_, ?_, hng, ?_, ?_⟩
+  · unfold postReadable hasV2Fields
+    simp only [h0, beq_self_eq_true, if_true, decide_eq_true_eq, hng]
+    rw [hout, l5]; omega
+  · rw [u32At_eq, h0, h2]
+  · intro i hi; rw [hout]; exact l3 i hi
+  · unfold stringData; rw [hng, hout]; exact l4
+
+/-- **post_v2_glyph_names_preserved.**  GLYPH_NAMES, version 2.0, a successful `Post::subset`, and fewer than
+65536 − 258 + 1 distinct custom names among the kept glyphs (`hcap`; the counter wraps beyond — the source table
+cannot denote more, each name needing its own u16 index ≥ 258).  Then the emitted table is readable, is
+version 2.0, and for EVERY entry (new, old) of the plan read-fonts' `glyph_name(new)` on the subset is the
+original's `glyph_name(old)` when that is defined; when the original has no name for `old` — `old` beyond the
+table's numGlyphs, an index ≥ 258 without a readable string (beyond the string list, in or after a truncated
+string, a non-ASCII string) — the subset says `.notdef` (index 0).  Duplicate names (two string indices holding
+the same name, several glyphs sharing one index) all resolve to that name; names are at most 255 bytes
+(Pascal strings), the length byte is never truncated.  Ids of the subset that no kept glyph owns (retain-gids
+holes) are `.notdef`. -/
+theorem post_v2_glyph_names_preserved (inp : PostIn) (out : Bytes) (hr : PostReq inp)
+    (h : subsetPost inp = .ok out) (hcap : (v2tail inp).strs.length ≤ 65278) :
+    (∀ new old, (new, old) ∈ inp.n2o →
+      glyphName out new = some ((glyphName inp.t old).getD notdefName)) ∧
+    (∀ new, new < inp.nout → (∀ old, (new, old) ∉ inp.n2o) → glyphName out new = some notdefName) := by
+  obtain ⟨hrd, hout⟩ := subsetPost_v2_ok inp out hr h
+  obtain ⟨ro, vo, ng, rarr, rstr⟩ := out_reader inp out hr h
+  have hascii : ∀ s ∈ (v2tail inp).strs, isAscii s = true ∧ s.length < 256 := by
+    intro s hs
+    unfold v2tail at hs
+    cases hm : inp.maxOld with
+    | none => simp [hm] at hs
+    | some m =>
+      simp only [hm] at hs
+      obtain ⟨_, _, _, _, _, hsrc, _⟩ := runPool_spec (jobs2 (pstrAll (stringData inp.t)) (oldToNew inp.n2o) (indexPairs inp.t m))
+        Pool.init poolInv_init
+      rcases hsrc s hs with h0 | ⟨new, hj, _⟩
+      · simp [Pool.init] at h0
+      · obtain ⟨old, ni, _, _, _, hget⟩ := (mem_jobs2 _ _ _ _ _).mp hj
+        have hmem : some s ∈ pstrAll (stringData inp.t) := List.mem_of_getElem? hget
+        obtain ⟨ha, l, hl, hle⟩ := pstrIter_item _ _ _ hmem
+        have : l < 256 := hr.bytes l (List.mem_of_mem_drop hl)
+        exact ⟨ha, by omega⟩
+  -- the reader on the subset at an id whose array entry is `k`
+  have hread : ∀ new k, new < inp.nout → (v2tail inp).arr[new]? = some k → k < 65536 →
+      glyphName out new = decodeIdx (v2tail inp).strs k := by
+    intro new k hnew hk hk16
+    unfold glyphName
+    simp only [ro, Bool.not_true, Bool.false_eq_true, if_false, vo]
+    simp only [show ¬ (0x00020000 = 0x00010000) by decide, if_false, if_true, ng, hnew]
+    have : (v2tail inp).arr.getD new 0 = k := by simp [List.getD_eq_getElem?_getD, hk]
+    rw [rarr new hnew, this, Nat.mod_eq_of_lt hk16]
+    unfold decodeIdx
+    by_cases hs : k < 258
+    · simp [hs]
+    · simp only [hs, if_false]
+      rw [rstr, pstrGet_eq, pstrGetD_enc _ _ hascii]
+  constructor
+  · intro new old hno
+    have hnew : new < inp.nout := hr.plan.bound _ hno
+    cases hm : inp.maxOld with
+    | none => rw [hr.maxNone hm] at hno; simp at hno
+    | some m =>
+      obtain ⟨k, hk, hk16, hd⟩ := v2tail_entry inp m hm hr.plan (hr.maxSome m hm) hcap new old hno
+      rw [hread new k hnew hk hk16, hd, glyphName_v2 _ hrd hr.ver]
+  · intro new hnew hhole
+    have hk := v2tail_hole inp hr.plan new hnew hhole
+    rw [hread new 0 hnew hk (by omega)]
+    simp [decodeIdx, stdNames_zero]
+
+/-- corollary in the form of the property: a defined name is kept -/
+theorem post_v2_defined_names_kept (inp : PostIn) (out : Bytes) (hr : PostReq inp)
+    (h : subsetPost inp = .ok out) (hcap : (v2tail inp).strs.length ≤ 65278)
+    (new old : Nat) (hno : (new, old) ∈ inp.n2o) (name : Bytes) (hname : glyphName inp.t old = some name) :
+    glyphName out new = some name := by
+  rw [(post_v2_glyph_names_preserved inp out hr h hcap).1 new old hno, hname]; rfl
+
+/-- **post_v2_num_glyphs.**  The rebuilt table is readable, says version 2.0, its numGlyphs field is
+`num_output_glyphs` and it has exactly that many index entries followed by the string pool. -/
+theorem post_v2_num_glyphs (inp : PostIn) (out : Bytes) (hr : PostReq inp) (h : subsetPost inp = .ok out) :
+    postReadable out = true ∧ u32At out 0 = 0x00020000 ∧ postNumGlyphs out = inp.nout ∧
+    out.length = 34 + 2 * inp.nout + ((v2tail inp).strs.flatMap pstrEnc).length ∧
+    out.take 32 = inp.t.take 32 := by
+  obtain ⟨hrd, hout⟩ := subsetPost_v2_ok inp out hr h
+  obtain ⟨ro, vo, ng, _, _⟩ := out_reader inp out hr h
+  have hlen := readable_v2_length inp.t hr.bytes hr.ver hrd
+  have hh : (inp.t.take 32).length = 32 := by simp; omega
+  obtain ⟨_, _, _, _, l5⟩ := v2bytes_layout (inp.t.take 32) inp.nout (v2tail inp) hh hr.nout (v2tail_arr_length inp)
+  refine ⟨ro, vo, ng, by rw [hout]; exact l5, ?_⟩
+  rw [hout]
+  unfold v2bytes
+  rw [List.append_assoc, List.append_assoc, List.take_left' hh]
+
+/-- **post_v2_string_pool_minimal.**  The emitted string pool has no string twice, no string equal to one of
+the 258 standard names, and every string is the original name of some kept glyph (hence, by
+`post_v2_glyph_names_preserved`, the name of that glyph in the subset): nothing unused is emitted. -/
+theorem post_v2_string_pool_minimal (inp : PostIn) (out : Bytes) (hr : PostReq inp)
+    (h : subsetPost inp = .ok out) :
+    (v2tail inp).strs.Pairwise (· ≠ ·) ∧
+    (∀ s ∈ (v2tail inp).strs, s ∉ stdNames) ∧
+    (∀ s ∈ (v2tail inp).strs, ∃ new old, (new, old) ∈ inp.n2o ∧ glyphName inp.t old = some s) := by
+  obtain ⟨hrd, _⟩ := subsetPost_v2_ok inp out hr h
+  unfold v2tail
+  cases hm : inp.maxOld with
+  | none => simp
+  | some m =>
+    simp only
+    obtain ⟨hinv, _, _, _, _, hsrc, _⟩ := runPool_spec (jobs2 (pstrAll (stringData inp.t)) (oldToNew inp.n2o) (indexPairs inp.t m))
+      Pool.init poolInv_init
+    refine ⟨hinv.nodup, fun s hs => indexIn_none.mp (hinv.nostd s hs), ?_⟩
+    intro s hs
+    rcases hsrc s hs with h0 | ⟨new, hj, _⟩
+    · simp [Pool.init] at h0
+    · obtain ⟨old, ni, hp, hge, hg, hget⟩ := (mem_jobs2 _ _ _ _ _).mp hj
+      refine ⟨new, old, (oldToNew_iff hr.plan _ _).mp hg, ?_⟩
+      obtain ⟨hin, _, hni⟩ := (mem_indexPairs _ _ _ _).mp hp
+      rw [glyphName_v2 _ hrd hr.ver]
+      unfold origName?
+      simp only [hin, if_true, ← hni, hge, if_false, hget, Option.join]
+      rfl
+
+/-- the converse direction of minimality: a kept glyph's custom (non-standard) name is in the pool -/
+theorem post_v2_custom_names_in_pool (inp : PostIn) (out : Bytes) (hr : PostReq inp)
+    (h : subsetPost inp = .ok out) (new old : Nat) (hno : (new, old) ∈ inp.n2o) (name : Bytes)
+    (hidx : ¬ u16At inp.t (34 + 2 * old) < 258) (hname : glyphName inp.t old = some name) (hstd : name ∉ stdNames) :
+    name ∈ (v2tail inp).strs := by
+  obtain ⟨hrd, _⟩ := subsetPost_v2_ok inp out hr h
+  rw [glyphName_v2 _ hrd hr.ver] at hname
+  unfold origName? at hname
+  by_cases hin : old < postNumGlyphs inp.t
+  · simp only [hin, if_true, hidx, if_false] at hname
+    cases hm : inp.maxOld with
+    | none => rw [hr.maxNone hm] at hno; simp at hno
+    | some m =>
+      unfold v2tail
+      simp only [hm]
+      obtain ⟨_, _, _, _, _, _, hin2⟩ := runPool_spec (jobs2 (pstrAll (stringData inp.t)) (oldToNew inp.n2o) (indexPairs inp.t m))
+        Pool.init poolInv_init
+      apply hin2 new name
+      · refine (mem_jobs2 _ _ _ _ _).mpr ⟨old, _, (mem_indexPairs _ _ _ _).mpr ⟨hin, hr.maxSome m hm _ hno, rfl⟩, hidx,
+          (oldToNew_iff hr.plan _ _).mpr hno, ?_⟩
+        cases hg : (pstrAll (stringData inp.t))[u16At inp.t (34 + 2 * old) - 258]? with
+        | none => simp [hg, Option.join] at hname
+        | some item =>
+          cases item with
+          | none => simp [hg, Option.join] at hname
+          | some nm => simp [hg, Option.join] at hname; rw [hname]
+      · exact indexIn_none.mpr hstd
+  · simp [hin] at hname
+
+theorem glyphName_other_version (t : Bytes) (gid : Nat) (h1 : u32At t 0 ≠ 0x00010000) (h2 : u32At t 0 ≠ 0x00020000) :
+    glyphName t gid = none := by
+  unfold glyphName
+  split
+  · rfl
+  · simp only [h1, h2, if_false]
+
+/-- **post_non_glyph_names_is_v3_header.**  Without GLYPH_NAMES every readable post table (any version) becomes
+its 32 header bytes with the version replaced by 3.0 and the other 28 bytes unchanged; read-fonts reads no glyph
+name from it. -/
+theorem post_non_glyph_names_is_v3_header (inp : PostIn) (out : Bytes)
+    (hflag : hasFlag inp.flags F_GLYPH_NAMES = false) (h : subsetPost inp = .ok out) :
+    out.length = 32 ∧ out.take 4 = [0, 3, 0, 0] ∧ out.drop 4 = (inp.t.take 32).drop 4 ∧
+    ∀ gid, glyphName out gid = none := by
+  unfold subsetPost at h
+  by_cases hrd : postReadable inp.t = true
+  · simp only [hrd, Bool.not_true, Bool.false_eq_true, if_false, hflag, false_and] at h
+    simp only [Except.ok.injEq] at h
+    have hlen : 32 ≤ inp.t.length := by
+      unfold postReadable at hrd
+      split at hrd <;> simp only [decide_eq_true_eq] at hrd <;> omega
+    have hh : (inp.t.take 32).length = 32 := by simp; omega
+    subst h
+    unfold patch
+    refine ⟨by simp; omega, by simp, ?_, ?_⟩
+    · simp only [List.take_zero, List.nil_append, List.length_cons, List.length_nil, Nat.zero_add]
+      rfl
+    · intro gid
+      apply glyphName_other_version
+      · simp [u32At, SubsetGvar.u32At]
+      · simp [u32At, SubsetGvar.u32At]
+  · simp [hrd] at h
+
+/-- non-vacuity: a version 2.0 table with 3 glyphs (`.notdef`; custom "x"; custom "ab" = the third string, the
+second string is empty and unused) subset to glyphs 0 and 2 -/
+def exTable : Bytes :=
+  [0, 2, 0, 0] ++ List.replicate 28 7 ++ [0, 3] ++ [0, 0, 1, 2, 1, 4] ++ [1, 120] ++ [0] ++ [2, 97, 98]
+def exIn : PostIn := { flags := 0x80, nout := 2, maxOld := some 2, n2o := [(0, 0), (1, 2)], srcGlyphs := 3, t := exTable }
+def exIn0 : PostIn := { flags := 0, nout := 2, maxOld := some 2, n2o := [(0, 0), (1, 2)], srcGlyphs := 3, t := exTable }
+def exOut : Bytes := [0, 2, 0, 0] ++ List.replicate 28 7 ++ [0, 2] ++ [0, 0, 1, 2] ++ [2, 97, 98]
+
+set_option maxRecDepth 100000 in
+example : PostReq exIn := by
+  refine ⟨by decide +kernel, by decide +kernel, by decide +kernel,
+    ⟨by decide +kernel, by decide +kernel, by decide +kernel⟩, by decide +kernel, ?_, by simp [exIn]⟩
+  intro m hm no hno
+  simp only [exIn, Option.some.injEq] at hm
+  subst hm
+  simp only [exIn, List.mem_cons, List.not_mem_nil, or_false] at hno
+  rcases hno with rfl | rfl <;> decide
+
+set_option maxRecDepth 100000 in
+example : (subsetPost exIn).toOption = some exOut ∧ glyphName exOut 1 = some [97, 98] ∧ glyphName exTable 2 = some [97, 98] ∧
+    (v2tail exIn).strs = [[97, 98]] := by decide +kernel
+
+set_option maxRecDepth 100000 in
+example : (subsetPost exIn0).toOption = some ([0, 3, 0, 0] ++ List.replicate 28 7) := by decide +kernel
 
 end FontVerif.C17Post
